@@ -23,10 +23,25 @@ def main():
         else:
             code = mod.run(ctx)
     except SystemExit: raise
-    except Exception:
+    except Exception as exc:
         traceback.print_exc()
         ctx.cleanup()
-        print(f'INTERNAL-ERROR in check {a.pid} (not a verdict)')
-        code = 2
+        # an exception that left the implementation (a frame under the checked repository lies below the last harness frame) on an
+        # input the harness feeds only because the clean tree answers it: the implementation no longer answers -> a violation with
+        # the traceback as the replay; anything else is a defect of the harness and no verdict
+        fr = traceback.extract_tb(exc.__traceback__)
+        here = os.path.dirname(os.path.abspath(__file__))
+        last_h = max([i for i, f in enumerate(fr) if os.path.abspath(f.filename).startswith(here)] or [-1])
+        impl = [f for f in fr[last_h + 1:] if os.path.abspath(f.filename).startswith(os.path.abspath(cm.REPO) + os.sep)]
+        if impl and not a.replay:
+            f = impl[-1]
+            p = cm.write_replay(ctx, dict(kind='violation', sig=f'{a.pid}:implementation-raises:{os.path.basename(f.filename)}:{f.name}',
+                                          what=f'the implementation raised {type(exc).__name__}: {exc} in {f.name} ({f.filename}:{f.lineno}) on an input the unchanged tree answers',
+                                          traceback=traceback.format_exc()[-3000:], tier=tier, seed=seed))
+            print(f'VIOLATION property={a.pid} replay={p}')
+            code = 1
+        else:
+            print(f'INTERNAL-ERROR in check {a.pid} (not a verdict)')
+            code = 2
     sys.exit(code)
 main()
